@@ -51,7 +51,8 @@ theorem cutByte_none {c : UInt8} {a : Bytes} (h : c ∉ a) : cutByte c a = none 
 theorem parseProxy_entry {s kw hp : Bytes} (hs : trimSpace s = kw ++ 32 :: hp) (hkw : (32 : UInt8) ∉ kw) :
     parseProxy s =
       if kw ++ 32 :: hp = bs "DIRECT" then some none
-      else (netSplitHostPort hp).map fun x => some { mode := parseMode kw, host := x.1, port := x.2 } := by
+      else (netSplitHostPort hp).bind fun x =>
+        if validHost x.1 && validPort x.2 then some (some { mode := parseMode kw, host := x.1, port := x.2 }) else none := by
   unfold parseProxy
   simp only [hs]
   have hne : (kw ++ 32 :: hp).isEmpty = false := by cases kw <;> rfl
@@ -60,7 +61,9 @@ theorem parseProxy_entry {s kw hp : Bytes} (hs : trimSpace s = kw ++ 32 :: hp) (
   · rfl
   · cases netSplitHostPort hp with
     | none => rfl
-    | some x => rfl
+    | some x =>
+      obtain ⟨h, p⟩ := x
+      cases hh : validHost h <;> cases hp' : validPort p <;> simp [hh, hp']
 
 /-- a keyword without host:port (other than DIRECT) is an error -/
 theorem parseProxy_keyword_alone {s : Bytes} (hne : trimSpace s ≠ []) (hd : trimSpace s ≠ bs "DIRECT")
@@ -224,6 +227,102 @@ theorem routeRequest_eq_spec_of_not_legacy (rc : RouteCfg) (scheme urlHost : Byt
       unfold legacySocks at this
       simp only [this]
       simp
+
+/-! ## URL scripts, the instance fold, the memoising counter-model -/
+
+theorem pacProxy_eq_pacAnswer (p : PacScript) (host : Bytes) : pacProxy p host = pacAnswer (p.eval host) := by
+  unfold pacProxy pacAnswer
+  cases p.eval host <;> rfl
+
+theorem ofTable_find? (tbl : List (Bytes × PacResult)) (url host : Bytes) :
+    ((tbl.map fun e => ({ cond := .hostIs e.1, result := e.2 } : UrlRule)).find? (fun r => r.cond.holds url host)).map (·.result) =
+      (tbl.find? (fun e => e.1 == host)).map (·.2) := by
+  induction tbl with
+  | nil => rfl
+  | cons e t ih =>
+    have hc : UrlCond.holds url host (.hostIs e.1) = (e.1 == host) := by
+      unfold UrlCond.holds
+      cases h : (e.1 == host)
+      · have : e.1 ≠ host := by simpa using h
+        simpa using fun h' => this h'.symm
+      · have : e.1 = host := by simpa using h
+        simp [this]
+    cases hb : (e.1 == host) with
+    | true =>
+      rw [List.map_cons, List.find?_cons_of_pos (by simp only [hc, hb]), List.find?_cons_of_pos (by simp only [hb])]
+      rfl
+    | false =>
+      rw [List.map_cons, List.find?_cons_of_neg (by simp only [hc, hb]; decide), List.find?_cons_of_neg (by simp only [hb]; decide)]
+      exact ih
+
+theorem at_directDomains (c : InstCfg) (q : RouteReq) : (c.at q).directDomains = c.rc.directDomains := by
+  unfold InstCfg.at; cases c.script <;> rfl
+
+theorem at_localhostDirect (c : InstCfg) (q : RouteReq) : (c.at q).localhostDirect = c.rc.localhostDirect := by
+  unfold InstCfg.at; cases c.script <;> rfl
+
+theorem at_localhostNames (c : InstCfg) (q : RouteReq) : (c.at q).localhostNames = c.rc.localhostNames := by
+  unfold InstCfg.at; cases c.script <;> rfl
+
+theorem at_connectTo (c : InstCfg) (q : RouteReq) : (c.at q).connectTo = c.rc.connectTo := by
+  unfold InstCfg.at; cases c.script <;> rfl
+
+theorem at_base_of_script {c : InstCfg} {s : UrlScript} (h : c.script = some s) (q : RouteReq) :
+    (c.at q).base = .pac { table := [], dflt := s.eval q.url q.host } := by
+  unfold InstCfg.at; rw [h]
+
+theorem runSeq_eq_map (c : InstCfg) (st : InstState) (qs : List RouteReq) : runSeq c st qs = qs.map (route c) := by
+  induction qs generalizing st with
+  | nil => rfl
+  | cons q qs ih => simp only [runSeq, step, List.map_cons, ih]
+
+theorem assoc_some_mem {κ β : Type} [DecidableEq κ] {k : κ} {l : List (κ × β)} {b : β} (h : assoc k l = some b) :
+    (k, b) ∈ l := by
+  induction l with
+  | nil => cases h
+  | cons e t ih =>
+    obtain ⟨k', b'⟩ := e
+    unfold assoc at h
+    split at h
+    · rename_i hk
+      simp only [Option.some.injEq] at h
+      subst hk h
+      exact List.mem_cons_self
+    · exact List.mem_cons_of_mem _ (ih h)
+
+/-- cache entries are answers `f` gave for some request with that key, and were admitted -/
+def CacheInv {α β κ : Type} (key : α → κ) (keep : β → Bool) (f : α → β) (cache : List (κ × β)) : Prop :=
+  ∀ e ∈ cache, ∃ q, key q = e.1 ∧ f q = e.2 ∧ keep e.2 = true
+
+theorem memoRun_eq_map {α β κ : Type} [DecidableEq κ] {key : α → κ} {keep : β → Bool} {f : α → β}
+    (hs : ∀ q q', key q = key q' → keep (f q) = true → f q' = f q)
+    (cache : List (κ × β)) (hinv : CacheInv key keep f cache) (qs : List α) :
+    memoRun key keep f cache qs = qs.map f := by
+  induction qs generalizing cache with
+  | nil => rfl
+  | cons q qs ih =>
+    unfold memoRun
+    cases ha : assoc (key q) cache with
+    | some b =>
+      simp only [List.map_cons]
+      obtain ⟨q0, hk, hf, hkeep⟩ := hinv _ (assoc_some_mem ha)
+      simp only at hk hf hkeep
+      have : f q = b := by
+        rw [← hf]
+        exact hs q0 q hk (by rw [hf]; exact hkeep)
+      rw [this, ih cache hinv]
+    | none =>
+      simp only [List.map_cons]
+      congr 1
+      apply ih
+      cases hk : keep (f q) with
+      | false => simpa using hinv
+      | true =>
+        simp only [if_true]
+        intro e he
+        rcases List.mem_cons.mp he with he | he
+        · subst he; exact ⟨q, rfl, rfl, hk⟩
+        · exact hinv e he
 
 end C05
 end FwdVerif
